@@ -117,18 +117,18 @@ def reference(lines: List[Dict[str, Any]], host: str, addr: str, port: int):
         return th, tc, rv
 
     if port != 22:
-        th, tc, rv = lookup(['[%s]:%d' % (host, port),
-                             '[%s]:%d' % (addr, port)])
+        th, tc, rv = lookup(['[%s]:%d' % (host, port)] +
+                            (['[%s]:%d' % (addr, port)] if addr else []))
         if th or tc:
             return th, tc, rv
 
         # documented fallback: nothing trusted was found for the port, so
         # the entries without a port apply; what was revoked for the port
         # stays revoked
-        th, tc, rv2 = lookup([host, addr])
+        th, tc, rv2 = lookup([host] + ([addr] if addr else []))
         return th, tc, rv | rv2
 
-    return lookup([host, addr])
+    return lookup([host] + ([addr] if addr else []))
 
 
 def render(lines: List[Dict[str, Any]]) -> str:
@@ -206,15 +206,23 @@ def run_case(case) -> CaseResult:
     port = case['port']
     ident = case['identity']
     match_name = alias or host
-    th, tc, rv = reference(lines, match_name, ADDR, port)
+    # how the client reaches the server: directly (the transport knows the
+    # peer's address and port), through an SSH tunnel (the channel reports
+    # no address and port 0) or through a proxy command (no peer name at
+    # all).  The host and PORT looked up are the ones being connected to.
+    via = case.get('via', 'direct')
+    addr = ADDR if via == 'direct' else ''
+    peername = {'direct': (ADDR, port), 'tunnel': ('', 0),
+                'proxy': None}[via]
+    th, tc, rv = reference(lines, match_name, addr, port)
     kh = render(lines)
-    labels = set()
+    labels = {'via:' + via}
+    cand = [match_name] + ([addr] if addr else [])
     matching = [ln for ln in lines if ln['kind'] not in ('comment', 'damaged')
                 and (line_matches(ln['pattern'],
-                                  ['[%s]:%d' % (match_name, port),
-                                   '[%s]:%d' % (ADDR, port)] if port != 22
-                                  else [match_name, ADDR]) or
-                     line_matches(ln['pattern'], [match_name, ADDR]))]
+                                  ['[%s]:%d' % (c, port) for c in cand]
+                                  if port != 22 else cand) or
+                     line_matches(ln['pattern'], cand))]
 
     for ln in matching:
         labels.add('match:' + (ln['marker'] or ln['kind']))
@@ -304,7 +312,7 @@ def run_case(case) -> CaseResult:
         ref = RefPeer('server', host_key=refcert)
         conn = RefConn(ref)
         link = RefLink(ref, copts)
-        link.h.wire.addr['s'] = (ADDR, port)
+        link.h.wire.addr['s'] = peername
         try:
             link.start()
             link.pump_until(link.ready.done)
@@ -319,7 +327,7 @@ def run_case(case) -> CaseResult:
         sopts['server_factory'] = make_server(log)
         try:
             pair = Pair(sopts, copts)
-            pair.h.wire.addr['s'] = (ADDR, port)
+            pair.h.wire.addr['s'] = peername
         except (ValueError, asyncssh.Error) as exc:
             # e.g. asyncssh refuses to load a user certificate as host cert
             return CaseResult(['server-setup-refused'], False)
@@ -349,7 +357,7 @@ def run_case(case) -> CaseResult:
                       hostkey_algs=[b'ssh-ed25519'])
         conn = RefConn(ref)
         link = RefLink(ref, copts)
-        link.h.wire.addr['s'] = (ADDR, port)
+        link.h.wire.addr['s'] = peername
         try:
             link.start()
             link.pump_until(link.ready.done)
@@ -484,6 +492,7 @@ def strategy(tier: str):
                 pick([22, 2222])).map(list), min_size=1, max_size=4)),
         'alias': pick([None, None, 'alias.example']),
         'port': pick([22, 22, 2222]),
+        'via': pick(['direct', 'direct', 'direct', 'tunnel', 'proxy']),
         'identity': ident})
 
 
@@ -539,6 +548,7 @@ FAMILIES = [
                              'why:cert:wrong-type', 'why:cert:expired',
                              'why:cert:future', 'why:cert:principal',
                              'why:cert:bad-signature', 'why:liar',
+                             'via:direct', 'via:tunnel', 'via:proxy',
                              'match:key', 'match:cert-authority',
                              'match:revoked', 'shared-known-hosts-object']},
            case_timeout=120),
